@@ -9,6 +9,7 @@ import (
 	"reflect"
 	"strconv"
 	"strings"
+	"time"
 
 	"github.com/smarthome-go/homescript/v3/homescript"
 	"github.com/smarthome-go/homescript/v3/homescript/errors"
@@ -25,14 +26,30 @@ type parsed struct {
 	panic string
 }
 
-func parseRepo(text string) (p parsed) {
-	defer func() {
-		if r := recover(); r != nil {
-			p.panic = fmt.Sprint(r)
-		}
+// parseRepo runs homescript.Parse with panic capture. The call is made on its own goroutine so
+// that a parser that never returns (a totality defect, property C05) is reported as a failure
+// with signature "hang" instead of stalling the run; the budget is >= 1000x the slowest honest
+// parse of the inputs used here.
+const parseBudget = 20 * time.Second
+
+func parseRepo(text string) parsed {
+	done := make(chan parsed, 1)
+	go func() {
+		var p parsed
+		defer func() {
+			if r := recover(); r != nil {
+				p.panic = fmt.Sprint(r)
+			}
+			done <- p
+		}()
+		p.prog, p.soft, p.hard = homescript.Parse(text, "c07.hms")
 	}()
-	p.prog, p.soft, p.hard = homescript.Parse(text, "c07.hms")
-	return p
+	select {
+	case p := <-done:
+		return p
+	case <-time.After(parseBudget):
+		return parsed{panic: "hang: Parse did not return within " + parseBudget.String()}
+	}
 }
 
 func (p parsed) clean() bool { return p.panic == "" && p.hard == nil && len(p.soft) == 0 }
